@@ -62,11 +62,15 @@ Fixpoint infer_init (e : expr) (sy : symtab) : str :=     (* infer_type_from_ini
   | _ => unknown
   end.
 
+(* syn::ext::IdentExt::unraw: the identifier without its raw prefix *)
+Definition unraw (n : str) : str := if starts (L "r#") n then skipn 2 n else n.
+(* the table is keyed on the identifier AS WRITTEN (ident.to_string() keeps r#) at every insert and
+   lookup site; only the name fall-back unraws (commit 0bff742) *)
 Fixpoint infer_payload (e : expr) (sy : symtab) : str :=  (* infer_payload_type: event_parser.rs:442 *)
   match e with
   | XRef u => infer_payload u sy
   | XStruct p => last_seg p
-  | XPath [n] => match lookup n sy with Some t => t | None => n end      (* falls back to the NAME *)
+  | XPath [n] => match lookup n sy with Some t => t | None => unraw n end      (* falls back to the NAME *)
   | XPath _ => unknown                   (* qualified paths name a value, not a type (C12-fix-unknown-fallbacks) *)
   | XTuple [] => L "()"
   | XTuple _ => unknown                  (* element types are not tracked (C12-fix-unknown-fallbacks) *)
